@@ -172,26 +172,35 @@ def run(prog, check):
         sub = single_assign_subst(f.node)
         prefixed = [n for ff, n in writers if isinstance(n.value, ast.BinOp)]
         plain = [n for ff, n in writers if not isinstance(n.value, ast.BinOp)]
-        ok = len(prefixed) == 1 and len(plain) == 1
-        cond_ok = False
-        if ok:
-            pn = prefixed[0]
-            txt = unparse(pn.value).replace(' ', '')
-            shape = re.match(r"^(\w+)\.Code\+'_'\+(\w+)\.Code$", txt) is not None
-            par = getattr(pn, '_parent', None)
-            if isinstance(par, ast.If) and pn in par.body and plain[0] in par.orelse:
-                t = par.test
-                if isinstance(t, ast.Name) and t.id in sub:
-                    t = sub[t.id]
-                if isinstance(t, ast.Compare) and len(t.ops) == 1:
-                    l, r = linform(t.left, sub), linform(t.comparators[0], sub)
-                    if l is not None and r is not None:
+        from .. import cfg as cfgmod_
+        from ..cfg import atomic_facts
+        from ..dataflow import resolve_expr
+        gfc = cfgmod_.build(f)
+
+        def several_countries(node_ast):
+            """True / False when reaching the store implies `more than one country` / `at most one`, None otherwise"""
+            res = None
+            for test, outcome in gfc.conditions_at(gfc.node_of(node_ast)):
+                for _, v, e in atomic_facts(test, outcome):
+                    e = resolve_expr(e, sub)
+                    if isinstance(e, ast.Compare) and len(e.ops) == 1:
+                        l, r = linform(e.left, sub), linform(e.comparators[0], sub)
+                        if l is None or r is None:
+                            continue
                         ln = [k for k in l if k.startswith('len(') and 'CountryList' in k]
-                        c = r.get('', None)
-                        if ln and set(r) == {''}:
-                            cond_ok = (isinstance(t.ops[0], ast.Gt) and c == 1) or (isinstance(t.ops[0], ast.GtE) and c == 2)
-            plain_ok = unparse(plain[0].value).endswith('.Code')
-            ok = shape and cond_ok and plain_ok
+                        if ln and not (set(r) - {''}) and not (set(l) - {ln[0], ''}) and l[ln[0]] == 1 and not l.get('', 0):
+                            c = r.get('', 0)
+                            op = e.ops[0]
+                            if (isinstance(op, ast.Gt) and c == 1) or (isinstance(op, ast.GtE) and c == 2) or (isinstance(op, ast.NotEq) and False):
+                                res = v
+                            elif (isinstance(op, ast.LtE) and c == 1) or (isinstance(op, ast.Lt) and c == 2):
+                                res = not v
+            return res
+        ok = bool(prefixed) and bool(plain)
+        shape = all(re.match(r"^(\w+)\.Code\+'_'\+(\w+)\.Code$", unparse(pn.value).replace(' ', '')) is not None for pn in prefixed)
+        cond_ok = all(several_countries(pn) is True for pn in prefixed) and all(several_countries(pl) is False for pl in plain)
+        plain_ok = all(unparse(pl.value).endswith('.Code') and isinstance(pl.value, ast.Attribute) for pl in plain)
+        ok = ok and shape and cond_ok and plain_ok
         check.ob('C18.R4', 'full-code::prefix-iff-several-countries', ok, f.where,
                  "FullCode = country.Code + '_' + sector.Code iff len(CountryList) > 1, else sector.Code" if ok else
                  'the prefix rule is not `country code prefix iff more than one country`', 'one-country vs two-country models')
